@@ -499,6 +499,9 @@ func extractC20(c *ctx) (Facts, error) {
 	} else {
 		s := newShaper(c, fd)
 		fl := s.flat(fd.Body)
+		// subscribeWg.Add(1) only after the wrapped Subscribe succeeded (the early error return has no Done())
+		f["tsub_wg_add_after_error_return"] = ordered(idx(fl, "if (_!=nil) {return nil,_}"), idx(fl, "recv.subscribeWg.Add(1)")) &&
+			countSub(fl[:1+idx(fl, "if (_!=nil) {return nil,_}")], "subscribeWg.Add(") == 0
 		f["tsub_subscribe_error_returned"] = idx(fl, "if (_!=nil) {return nil,_}") == 1 && strings.HasPrefix(fl[0], "_,_:=recv.sub.Subscribe(p0,p1)")
 		pump := ""
 		for _, x := range fl {
